@@ -237,7 +237,7 @@ impl Tally {
         self.nontrivial.insert(mcx::fnv64(desc.as_bytes()));
     }
     pub fn violation(&mut self, key: String, desc: String, replay: Value) {
-        if self.violations.len() < 50 {
+        if self.violations.len() < 2000 {
             self.violations.push((key, desc, replay));
         } else {
             self.count("violations_dropped_over_cap", 1);
@@ -256,11 +256,10 @@ impl Tally {
             *self.outcomes.entry(k).or_insert(0) += v;
         }
         self.nontrivial.extend(o.nontrivial);
-        for v in o.violations {
-            if self.violations.len() < 200 {
-                self.violations.push(v);
-            }
-        }
+        self.violations.extend(o.violations);
+        // keep the simplest (shortest key) cases: those are the minimal counterexamples
+        self.violations.sort_by(|a, b| (a.0.len(), &a.0).cmp(&(b.0.len(), &b.0)));
+        self.violations.truncate(2000);
         for s in o.samples {
             if self.samples.len() < 6 {
                 self.samples.push(s);
@@ -278,7 +277,9 @@ impl Tally {
         for s in self.samples {
             rep.sample(s);
         }
-        for (k, d, r) in self.violations {
+        let mut vs = self.violations;
+        vs.sort_by(|a, b| (a.0.len(), &a.0).cmp(&(b.0.len(), &b.0)));
+        for (k, d, r) in vs {
             rep.violation(k, d, r);
         }
     }
@@ -310,4 +311,18 @@ pub fn filter_replay(mut t: Tally, key: &Option<String>) -> Tally {
         println!("replay {k}: {}", if t.violations.is_empty() { "does not reproduce (held)" } else { "reproduces" });
     }
     t
+}
+
+/// Vacuity guards: `always` are trigger counters (cases exercised) and must be non-zero in every run;
+/// `if_clean` are outcome counters (accept path / reject path taken) that are only required when no
+/// violation was found, so a broken subject is reported as a violation and not as a machinery error.
+pub fn guards(rep: &mut Report, always: &[&str], if_clean: &[&str]) {
+    for c in always {
+        rep.require_nonzero(c);
+    }
+    if rep.violations().is_empty() {
+        for c in if_clean {
+            rep.require_nonzero(c);
+        }
+    }
 }
